@@ -32,6 +32,8 @@ use as_client::AsClient;
 pub use as_client::{OutboundProbeError, OutboundProbeEvent};
 use as_server::AsServer;
 pub use as_server::{InboundProbeError, InboundProbeEvent};
+#[cfg(libp2p_verif)]
+pub use as_server::verif_filter_valid_addrs;
 use futures_timer::Delay;
 use libp2p_core::{ConnectedPoint, Endpoint, Multiaddr, multiaddr::Protocol, transport::PortUse};
 use libp2p_identity::PeerId;
